@@ -8,6 +8,7 @@ import (
 	"fmt"
 	"os"
 	"path/filepath"
+	"strings"
 	"sync"
 	"sync/atomic"
 	"time"
@@ -20,6 +21,7 @@ import (
 	"go.brendoncarroll.net/p2p/p/p2pmux"
 	"go.brendoncarroll.net/p2p/s/fragswarm"
 	"go.brendoncarroll.net/p2p/s/p2pkeswarm"
+	"go.brendoncarroll.net/p2p/verifhook"
 
 	"verifharness/internal/ev"
 	"verifharness/internal/rng"
@@ -125,7 +127,7 @@ func c08n(c *c08Ctx, quick, thorough int, sequential bool) int {
 }
 
 func runC08(r *ev.Run) {
-	r.Rule = "hostile bytes to every packet-facing layer. Synchronous entry points (address parsers, key parsers, peer-id text, the five demultiplexers, P2PKE Session.Deliver in every handshake state and role, Channel.Deliver with 0-3 occupied slots, DHT handlers and cache calls) are called in-process with panic capture (the DHT handlers also from 8 goroutines at once on one node while peers are added and removed); layers that run in library goroutines (fragswarm, mbapp tell/ask/reply paths, multiplexers, p2pkeswarm) sit on the harness's wire transport (quicswarm faces a raw quic-go client that authenticates honestly and then writes hostile frames: length > mtu, length > remaining, zero, half a header, boundary lengths, stream reset mid-frame, oversize and reset uni-streams; sshswarm faces a raw x/crypto/ssh client that authenticates honestly and then sends global requests with odd names and empty / MTU+-1 / 256 KiB payloads, channel opens and abrupt reconnects) and each input is appended to an on-disk log before it is injected, the child process being the crash detector; generators: uniform random, structure-aware field mutations of genuine packets (every header field set to boundary values, over-long / truncated varints, wrong body lengths), contradiction sequences (a first packet creating reassembly state followed by packets with the same key whose part count, index, total size or body length disagree) and bit-flips/truncations; after each batch one valid message must still get through every layer. non-trivial = input got past the layer's first length check; distinct = (layer, generator, field/value class)"
+	r.Rule = "hostile bytes to every packet-facing layer. Synchronous entry points (address parsers, key parsers, peer-id text, the five demultiplexers, P2PKE Session.Deliver in every handshake state and role, Channel.Deliver with 0-3 occupied slots, complete handshakes by holders of other keys on a bound channel (as initiator and answering its rekey), DHT handlers and cache calls) are called in-process with panic capture (the DHT handlers also from 8 goroutines at once on one node while peers are added and removed); layers that run in library goroutines (fragswarm, mbapp tell/ask/reply paths, multiplexers, p2pkeswarm) sit on the harness's wire transport (quicswarm faces a raw quic-go client that authenticates honestly and then writes hostile frames: length > mtu, length > remaining, zero, half a header, boundary lengths, stream reset mid-frame, oversize and reset uni-streams; sshswarm faces a raw x/crypto/ssh client that authenticates honestly and then sends global requests with odd names and empty / MTU+-1 / 256 KiB payloads, channel opens and abrupt reconnects) and each input is appended to an on-disk log before it is injected, the child process being the crash detector; generators: uniform random, structure-aware field mutations of genuine packets (every header field set to boundary values, over-long / truncated varints, wrong body lengths), contradiction sequences (a first packet creating reassembly state followed by packets with the same key whose part count, index, total size or body length disagree) and bit-flips/truncations; after each batch one valid message must still get through every layer. non-trivial = input got past the layer's first length check; distinct = (layer, generator, field/value class)"
 	g := rng.New(r.Seed, "C08", fmt.Sprint(r.Batch))
 	c := &c08Ctx{r: r, g: g}
 	if r.OutDir != "" {
@@ -138,7 +140,7 @@ func runC08(r *ev.Run) {
 	for _, ph := range []struct {
 		name string
 		fn   func(*c08Ctx)
-	}{{"parsers", c08Parsers}, {"mux", c08Mux}, {"sessions", c08Sessions}, {"channels", c08Channels}, {"kademlia", c08Kademlia}, {"layers", c08Layers}, {"quic", c08QUIC}, {"ssh", c08SSH}} {
+	}{{"parsers", c08Parsers}, {"mux", c08Mux}, {"sessions", c08Sessions}, {"channels", c08Channels}, {"foreign-handshakes", c08ForeignHandshakes}, {"kademlia", c08Kademlia}, {"layers", c08Layers}, {"quic", c08QUIC}, {"ssh", c08SSH}} {
 		t0 := time.Now()
 		ph.fn(c)
 		r.Count("phase_ms_"+ph.name, time.Since(t0).Milliseconds())
@@ -165,10 +167,13 @@ func c08Parsers(c *c08Ctx) {
 		for i := 0; i < n/len(kinds); i++ {
 			var in []byte
 			gen := "mutated"
-			switch g.Intn(5) {
+			switch g.Intn(6) {
 			case 0:
 				in = g.Bytes(g.Intn(80))
 				gen = "random"
+			case 1, 2:
+				in = addrFieldVariants(g, rng.Pick(g, seeds[k.name]))
+				gen = "field-replaced"
 			default:
 				in = mutate(g, rng.Pick(g, seeds[k.name]))
 			}
@@ -186,12 +191,18 @@ func c08Parsers(c *c08Ctx) {
 	for i := 0; i < n; i++ {
 		var in []byte
 		gen := "mutated"
-		switch g.Intn(6) {
+		switch g.Intn(8) {
 		case 0:
 			in = g.Bytes(g.Intn(100))
 			gen = "random"
 		case 1:
 			in = mutate(g, goodPriv)
+		case 2:
+			in = derShorten(g, goodPub)
+			gen = "der-shortened"
+		case 3:
+			in = derShorten(g, goodPriv)
+			gen = "der-shortened"
 		default:
 			in = mutate(g, goodPub)
 		}
@@ -340,6 +351,29 @@ func c08Sessions(c *c08Ctx) {
 			}) {
 				c.r.NonTrivial(fmt.Sprintf("session/init=%v/state=%d/%s", isInit, state, gen))
 			}
+		}
+	}
+}
+
+// c08ForeignHandshakes: not malformed bytes but well-formed handshakes from the wrong party: a holder of another key runs a
+// complete handshake on a channel that is bound to someone else, as initiator and as the one answering the channel's rekey
+// (the C05 scenarios). Only a crash counts here: the scenarios report into a scratch run, the child process is the detector.
+func c08ForeignHandshakes(c *c08Ctx) {
+	if c.r.Batch != 0 {
+		return
+	}
+	verifhook.EnableSink(true)
+	defer verifhook.EnableSink(false)
+	scratch := ev.NewRun("C08", c.r.Tier, c.r.Seed, c.r.Batch, c.r.NBatch, "")
+	okKey, otherOK := keyN(31), keyN(34)
+	for _, pd := range predicates(okKey, keyN(32)) {
+		if !pd.fn(&otherOK.Pub) || pd.name == "reject-all" {
+			continue
+		}
+		for _, attack := range []string{"foreign-initiates", "foreign-answers-rekey", "foreign-answers-rekey-with-data"} {
+			c.record("Channel/foreign-handshake", []byte(pd.name+"/"+attack))
+			c05BoundAs(scratch, c.g.Fork(), "c08-bound-"+pd.name+"-"+attack, pd, attack, "other-accepted-key", okKey, otherOK, "C08")
+			c.r.NonTrivial("channel/foreign-handshake/" + attack)
 		}
 	}
 }
@@ -795,6 +829,120 @@ func hexList(bs [][]byte) []string {
 	var out []string
 	for _, b := range bs {
 		out = append(out, hex.EncodeToString(trunc(b, 24)))
+	}
+	return out
+}
+
+// addrFieldVariants: structure-aware mutation of a genuine address text: the text is cut at its separators and one field at a
+// time is replaced by a small hostile token (empty, a lone bracket, an unbalanced bracket, separators, numbers at the limits).
+func addrFieldVariants(g *rng.R, text []byte) []byte {
+	const seps = "@:/+[]%,;=#?"
+	type span struct{ a, b int }
+	var fields []span
+	start := 0
+	for i := 0; i <= len(text); i++ {
+		if i == len(text) || strings.IndexByte(seps, text[i]) >= 0 {
+			fields = append(fields, span{start, i})
+			start = i + 1
+		}
+	}
+	tokens := []string{"", "[", "]", "[]", "[:", ":]", "[[", "]]", "[::1", "::1]", "[::1]", "::", ":", "@", "@@", "/", "//", "%", "%25", "0", "-1", "65535", "65536", "4294967296", "99999999999999999999", " ", "\x00", "\xff", ".", "..", "a"}
+	f := fields[g.Intn(len(fields))]
+	tok := rng.Pick(g, tokens)
+	out := append([]byte{}, text[:f.a]...)
+	out = append(out, tok...)
+	out = append(out, text[f.b:]...)
+	return out
+}
+
+// derShorten: structure-aware mutation of a DER encoding: one element (at any depth) loses 1..n bytes from the end of its
+// contents or is emptied, and the lengths of the enclosing elements are corrected, so that the result is well-formed DER
+// with an unusually short field (an OID of one or two arcs, an empty bit string, ...).
+func derShorten(g *rng.R, der []byte) []byte {
+	type node struct {
+		tag      byte
+		children []*node
+		val      []byte
+	}
+	var parse func(b []byte, depth int) ([]*node, bool)
+	parse = func(b []byte, depth int) ([]*node, bool) {
+		var out []*node
+		for len(b) > 0 {
+			if len(b) < 2 {
+				return nil, false
+			}
+			tag, l, hdr := b[0], int(b[1]), 2
+			if l&0x80 != 0 {
+				nb := l & 0x7f
+				if nb == 0 || nb > 3 || len(b) < 2+nb {
+					return nil, false
+				}
+				l = 0
+				for _, x := range b[2 : 2+nb] {
+					l = l<<8 | int(x)
+				}
+				hdr = 2 + nb
+			}
+			if len(b) < hdr+l {
+				return nil, false
+			}
+			n := &node{tag: tag, val: b[hdr : hdr+l]}
+			if tag&0x20 != 0 && depth < 8 {
+				if ch, ok := parse(n.val, depth+1); ok {
+					n.children = ch
+				}
+			}
+			out = append(out, n)
+			b = b[hdr+l:]
+		}
+		return out, true
+	}
+	roots, ok := parse(der, 0)
+	if !ok || len(roots) == 0 {
+		return mutate(g, der)
+	}
+	var all []*node
+	var walk func(ns []*node)
+	walk = func(ns []*node) {
+		for _, n := range ns {
+			all = append(all, n)
+			walk(n.children)
+		}
+	}
+	walk(roots)
+	victim := all[g.Intn(len(all))]
+	cut := 0
+	if len(victim.val) > 0 {
+		cut = 1 + g.Intn(len(victim.val))
+		if g.Chance(1, 2) && len(victim.val) > 4 {
+			cut = 1 + g.Intn(4)
+		}
+	}
+	victim.val = victim.val[:len(victim.val)-cut]
+	victim.children = nil
+	var ser func(n *node) []byte
+	ser = func(n *node) []byte {
+		body := n.val
+		if n.children != nil {
+			body = nil
+			for _, c := range n.children {
+				body = append(body, ser(c)...)
+			}
+		}
+		out := []byte{n.tag}
+		switch {
+		case len(body) < 0x80:
+			out = append(out, byte(len(body)))
+		case len(body) < 0x100:
+			out = append(out, 0x81, byte(len(body)))
+		default:
+			out = append(out, 0x82, byte(len(body)>>8), byte(len(body)))
+		}
+		return append(out, body...)
+	}
+	var out []byte
+	for _, n := range roots {
+		out = append(out, ser(n)...)
 	}
 	return out
 }
